@@ -55,3 +55,8 @@ chk("C10", "model_checking",
     "behaviour is replayed on real files with all bytes compared against the reference encoding after every step (and unchanged bytes on refusal).",
     "Exhaustive within: files <= 2 sections over 6 blocks, 4 root lists, 5 containers, 11 operations, behaviours of 2 (3) steps. " + TB,
     "TLA+ action spec + TLC behaviours replayed on real files with byte comparison", "DESIGN.md §3 C10")
+chk("C20", "model_checking",
+    "Deferred.tla models lazy creation, callback bookkeeping and the closed typestate; TLC checks Lazy/OnceFiresOnce on the complete bounded behaviour tree; every behaviour is replayed on the real "
+    "DeferredCarWriter with result, callback log and output bytes compared after every step, and the final output compared with a direct writer.",
+    "Exhaustive within: histories of 5 (6) operations over 8 operations, 5 configurations. " + TB,
+    "TLA+ state machine + TLC behaviours replayed on the real deferred writer", "DESIGN.md §3 C20")
